@@ -151,3 +151,158 @@ fn git_color_names() {
         i += 1;
     }
 }
+
+// ---- the word loop of `parse` (split on whitespace, case folding, attribute keywords, colour
+// counter, error values), run by CBMC on CONCRETE strings: a bounded stand-in (the bound is the
+// list of strings); symbolic strings through split_whitespace / to_lowercase do not finish.
+// (Feasible at all only with -Z restrict-vtable and the io::Error recursion limit, DESIGN 8.26.)
+
+fn style_of(fg: Option<Color>, bg: Option<Color>, e: Effects) -> Style {
+    Style::new().fg_color(fg).bg_color(bg) | e
+}
+
+fn expect_ok(s: &str, fg: Option<Color>, bg: Option<Color>, e: Effects) {
+    let got = crate::parse(s);
+    assert!(got == Ok(style_of(fg, bg, e)), "a valid description denotes its style: first colour foreground, second background, attributes as a set where a later negation wins, any letter case, any whitespace");
+}
+
+fn expect_unknown(s: &str, w: &str) {
+    match crate::parse(s) {
+        Err(crate::Error::UnknownWord { style, word }) => assert!(word == w && style == s, "an unknown word is rejected with the error that names that word"),
+        _ => assert!(false, "an unknown word is rejected as unknown"),
+    }
+}
+
+fn expect_extra(s: &str, w: &str) {
+    match crate::parse(s) {
+        Err(crate::Error::ExtraColor { style, word }) => assert!(word == w && style == s, "a third colour is rejected with the error that names that word"),
+        _ => assert!(false, "a third colour is rejected as an extra colour"),
+    }
+}
+
+const RED: Option<Color> = Some(Color::Ansi(AnsiColor::Red));
+const BLUE: Option<Color> = Some(Color::Ansi(AnsiColor::Blue));
+
+macro_rules! words {
+    ($name:ident, $body:block) => {
+        // byte loops of std (to_lowercase, searching) run over whole strings of up to 23 bytes
+        #[cfg_attr(kani, kani::proof, kani::unwind(26))]
+        #[cfg_attr(not(kani), test)]
+        fn $name() $body
+    };
+}
+
+// every Unicode White_Space character separates words
+words!(git_words_separators_0, {
+    expect_ok("red\u{9}blue", RED, BLUE, Effects::new());
+    expect_ok("red\u{a}blue", RED, BLUE, Effects::new());
+    expect_ok("red\u{b}blue", RED, BLUE, Effects::new());
+    expect_ok("red\u{c}blue", RED, BLUE, Effects::new());
+    expect_ok("red\u{d}blue", RED, BLUE, Effects::new());
+});
+words!(git_words_separators_1, {
+    expect_ok("red\u{20}blue", RED, BLUE, Effects::new());
+    expect_ok("red\u{85}blue", RED, BLUE, Effects::new());
+    expect_ok("red\u{a0}blue", RED, BLUE, Effects::new());
+    expect_ok("red\u{1680}blue", RED, BLUE, Effects::new());
+    expect_ok("red\u{2000}blue", RED, BLUE, Effects::new());
+});
+words!(git_words_separators_2, {
+    expect_ok("red\u{2001}blue", RED, BLUE, Effects::new());
+    expect_ok("red\u{2002}blue", RED, BLUE, Effects::new());
+    expect_ok("red\u{2003}blue", RED, BLUE, Effects::new());
+    expect_ok("red\u{2004}blue", RED, BLUE, Effects::new());
+    expect_ok("red\u{2005}blue", RED, BLUE, Effects::new());
+});
+words!(git_words_separators_3, {
+    expect_ok("red\u{2006}blue", RED, BLUE, Effects::new());
+    expect_ok("red\u{2007}blue", RED, BLUE, Effects::new());
+    expect_ok("red\u{2008}blue", RED, BLUE, Effects::new());
+    expect_ok("red\u{2009}blue", RED, BLUE, Effects::new());
+    expect_ok("red\u{200a}blue", RED, BLUE, Effects::new());
+});
+words!(git_words_separators_4, {
+    expect_ok("red\u{2028}blue", RED, BLUE, Effects::new());
+    expect_ok("red\u{2029}blue", RED, BLUE, Effects::new());
+    expect_ok("red\u{202f}blue", RED, BLUE, Effects::new());
+    expect_ok("red\u{205f}blue", RED, BLUE, Effects::new());
+    expect_ok("red\u{3000}blue", RED, BLUE, Effects::new());
+});
+words!(git_words_blank, {
+    expect_ok("", None, None, Effects::new());
+    expect_ok(" \t\r\n", None, None, Effects::new());
+    expect_ok("  red \t\n blue  ", RED, BLUE, Effects::new());
+    expect_ok("red", RED, None, Effects::new());
+});
+words!(git_words_attr_bold, {
+    expect_ok("bold", None, None, Effects::BOLD);
+    expect_ok("bold nobold", None, None, Effects::new());
+    expect_ok("bold no-bold", None, None, Effects::new());
+    expect_ok("nobold bold", None, None, Effects::BOLD);
+    expect_ok("no-bold", None, None, Effects::new());
+});
+words!(git_words_attr_dim, {
+    expect_ok("dim", None, None, Effects::DIMMED);
+    expect_ok("dim nodim", None, None, Effects::new());
+    expect_ok("dim no-dim", None, None, Effects::new());
+    expect_ok("nodim dim", None, None, Effects::DIMMED);
+    expect_ok("no-dim", None, None, Effects::new());
+});
+words!(git_words_attr_ul, {
+    expect_ok("ul", None, None, Effects::UNDERLINE);
+    expect_ok("ul noul", None, None, Effects::new());
+    expect_ok("ul no-ul", None, None, Effects::new());
+    expect_ok("noul ul", None, None, Effects::UNDERLINE);
+    expect_ok("no-ul", None, None, Effects::new());
+});
+words!(git_words_attr_blink, {
+    expect_ok("blink", None, None, Effects::BLINK);
+    expect_ok("blink noblink", None, None, Effects::new());
+    expect_ok("blink no-blink", None, None, Effects::new());
+    expect_ok("noblink blink", None, None, Effects::BLINK);
+    expect_ok("no-blink", None, None, Effects::new());
+});
+words!(git_words_attr_reverse, {
+    expect_ok("reverse", None, None, Effects::INVERT);
+    expect_ok("reverse noreverse", None, None, Effects::new());
+    expect_ok("reverse no-reverse", None, None, Effects::new());
+    expect_ok("noreverse reverse", None, None, Effects::INVERT);
+    expect_ok("no-reverse", None, None, Effects::new());
+});
+words!(git_words_attr_italic, {
+    expect_ok("italic", None, None, Effects::ITALIC);
+    expect_ok("italic noitalic", None, None, Effects::new());
+    expect_ok("italic no-italic", None, None, Effects::new());
+    expect_ok("noitalic italic", None, None, Effects::ITALIC);
+    expect_ok("no-italic", None, None, Effects::new());
+});
+words!(git_words_attr_strike, {
+    expect_ok("strike", None, None, Effects::STRIKETHROUGH);
+    expect_ok("strike nostrike", None, None, Effects::new());
+    expect_ok("strike no-strike", None, None, Effects::new());
+    expect_ok("nostrike strike", None, None, Effects::STRIKETHROUGH);
+    expect_ok("no-strike", None, None, Effects::new());
+});
+words!(git_words_case, {
+    expect_ok("RED Blue", RED, BLUE, Effects::new());
+    expect_ok("BoLd rEd", RED, None, Effects::BOLD);
+    expect_ok("NO-UL UL", None, None, Effects::UNDERLINE);
+    expect_ok("#AbCdEf", Some(Color::Rgb(RgbColor(0xab, 0xcd, 0xef))), None, Effects::new());
+    expect_ok("NORMAL Red", None, RED, Effects::new());
+});
+words!(git_words_colour_slots, {
+    expect_ok("-1 blue", None, BLUE, Effects::new());
+    expect_ok("7 #ff0000", Some(Color::Ansi256(Ansi256Color(7))), Some(Color::Rgb(RgbColor(255, 0, 0))), Effects::new());
+    expect_ok("bold red ul blue italic", RED, BLUE, Effects::BOLD | Effects::UNDERLINE | Effects::ITALIC);
+    expect_ok("blue red", BLUE, RED, Effects::new());
+});
+words!(git_words_errors, {
+    expect_extra("red blue green", "green");
+    expect_extra("red blue 7", "7");
+    expect_extra("bold red blue Normal", "Normal");
+    expect_unknown("red foo", "foo");
+    expect_unknown("Foo", "Foo");
+    expect_unknown("red nobolds", "nobolds");
+    expect_unknown("no--bold", "no--bold");
+    expect_unknown("256", "256");
+});
